@@ -179,7 +179,9 @@ func TestWorker(t *testing.T) {
 	// watchdog on the real clock: a stuck bubble is reported and the process exits at once
 	go func() {
 		for {
-			time.Sleep(200 * time.Millisecond)
+			// coarse on purpose: under GOMAXPROCS=1 every wake-up of this goroutine perturbs the order in which
+			// goroutines woken in the same step reach their park sites
+			time.Sleep(2 * time.Second)
 			st := curStart.Load()
 			if st != 0 && time.Since(time.Unix(0, st)) > runWatchdog {
 				info, _ := curInfo.Load().(string)
